@@ -15,7 +15,9 @@ stage and asserts
       (``<=`` for the few rows that are only maximal);
   (3) nothing is ever pulled past need(k): the source raises OverRead there
       (bounded mode) or simply ends there (finite mode, where touching the end
-      is detected through the pull counter).
+      is detected through the pull counter);
+  (4) the same when the caller has already taken outputs from the object a stage returned before the next stage is
+      stacked on it (case field ``pre``): the new stage reads nothing when built and starts where the caller stopped.
 """
 import math
 import operator
@@ -43,7 +45,9 @@ RULE = ("cases = (chain of 1..4 stage rows with parameters, k, source kind, sour
         "(j-1)*hop+size, (ceil(k/hop)-1)*hop+size, index of the k-th passing item, resampler order+1 neighbourhood, "
         "min(k, n) against a finite second operand of n items where never more than its n outputs are asked for, "
         "furthest consumer of a tee) composed along the chain and compared with the pull counter of the source "
-        "after construction, after iter() and after every single output; non-trivial = k >= 2 and the chain is not "
+        "after construction, after iter() and after every single output; resumed cases: the caller takes pre[i] outputs "
+        "(take / next / a for loop that breaks) from the object stage i returned before stage i+1 is stacked on it - stage "
+        "i+1 starts at that position, so stage i delivers pre[i] + need(i+1) outputs in all; non-trivial = k >= 2 and the chain is not "
         "a pure pass-through (fan-out: >= 2 consumers and >= 2 items); distinct = distinct case hash")
 ASSUMPTIONS = [
   "the 'source' of a stage is the signal it processes (rows of family param-stream: the coefficient / parameter "
@@ -65,6 +69,16 @@ ASSUMPTIONS = [
   "is the shorter (unchanged tree, finite length n, read to exhaustion: 'source op finite' reads n+1 source items, "
   "'finite op source' reads n); no evaluation order avoids this on both sides without pushing an item back, so the "
   "number of reads at the end of a binary operator is not asserted in either operand order",
+  "likewise for a time-varying filter: when the input ends before a coefficient stream (or the other way round) the "
+  "operand the generated loop asks first has given one item for an output that does not exist (unchanged tree: the input "
+  "is asked first, so 'endless input, coefficient stream of n values' read to exhaustion pulls n+1 input items and "
+  "'input of n items, endless coefficient stream' pulls n coefficient values); which of the two it is is not asserted, "
+  "only that k <= n outputs read exactly k of each",
+  "a Stream is a single-use iterator: using the SAME Stream object (or the same filter holding it) twice in one expression "
+  "(f + f, f * f, ParallelFilter.numpoly and .denpoly taken separately, ZFilter.diff of a time-varying denominator) is the "
+  "caller sharing one iterator between two readers and is not generated; thub(a, n) / a.copy() are the documented ways and "
+  "are (rows param:algebra:hub:*, copy:*)",
+  "resumed cases take outputs only from plain Streams and iterators (a StreamTeeHub hands out a new copy with each iter())",
   "resample order 0 and chunks.array are included only if a probe at import shows that they run at all (they do "
   "not on a tree without the repairs of DESIGN 4 #11 / #10, which belong to C07/C19 and C18); resample steps are "
   "exact (Fraction or dyadic float) so that the interpolation position has no rounding",
@@ -611,7 +625,17 @@ _FILT = OrderedDict([
   ("linfilt", lambda: LinearFilter([1, 2], [1, .5])),
   ("linfilt-dict", lambda: LinearFilter({0: 1, 3: 2})),
   ("zero", lambda: ZFilter(0)),
+  # many taps / long memories / long pure delays: one input per output whatever the size of the equation
+  ("fir-long", lambda: ZFilter([1. + i for i in range(24)])),
+  ("iir-long", lambda: ZFilter([1, .5], [1] + [.01] * 18)),
+  ("both-long", lambda: ZFilter([.5] * 12, [2] + [.01] * 11)),
+  ("delay-long", lambda: z ** -40),
+  ("sparse-long", lambda: (1 + z ** -33) / (1 - .5 * z ** -29)),
+  ("linfilt-long", lambda: LinearFilter([1] * 20, [1, .5])),
+  ("tv-long", lambda: ZFilter([1.] * 19) + Stream(1, 2) * z ** -19),
+  ("tv-den-long", lambda: 1 / (ZFilter([1] + [.01] * 17) - Stream(.5, .25) * z ** -18)),
 ])
+_LONG = ["fir-long", "iir-long", "both-long", "delay-long", "sparse-long", "linfilt-long", "tv-long", "tv-den-long"]
 R("zfilter", lambda s, p: _FILT[p["f"]]()(s), fam="filter", dom={"f": list(_FILT)})
 R("zfilter:Stream-in", lambda s, p: _FILT[p["f"]]()(S(s), zero=0), fam="filter", dom={"f": list(_FILT)})
 R("zfilter:memory", lambda s, p: _FILT[p["f"]]()(s, memory=_MEM[p["m"]]()),
@@ -624,12 +648,14 @@ _MEM = {
   "stream": lambda: Stream(1., 2.),
 }
 R("cascade", lambda s, p: CascadeFilter(*[_FILT[n]() for n in p["fs"].split("+") if n])(s), fam="filter",
-  dom={"fs": ["fir1+iir1", "iir2+fir3+delay", "tv-num+tv-den", "gain", "", "tv-a0+fir1"]})
+  dom={"fs": ["fir1+iir1", "iir2+fir3+delay", "tv-num+tv-den", "gain", "", "tv-a0+fir1", "fir-long+iir-long",
+              "tv-long+delay-long"]})
 R("cascade:list", lambda s, p: CascadeFilter([_FILT["fir1"](), _FILT["iir1"]()])(S(s), zero=0), fam="filter")
 R("cascade:callables", lambda s, p: CascadeFilter(al.maverage.deque(3), lambda sig, **kw: S(sig) * 2, _FILT["iir1"]())(s),
   fam="filter")
 R("parallel", lambda s, p: ParallelFilter(*[_FILT[n]() for n in p["fs"].split("+") if n])(s), fam="filter",
-  dom={"fs": ["fir1+iir1", "fir1+iir1+delay", "tv-num+tv-den+gain", "gain", "iir2+iir2", "tv-a0+fir3"]})
+  dom={"fs": ["fir1+iir1", "fir1+iir1+delay", "tv-num+tv-den+gain", "gain", "iir2+iir2", "tv-a0+fir3",
+              "fir-long+iir-long+fir1", "sparse-long+tv-den-long"]})
 R("parallel:empty", lambda s, p: ParallelFilter()(s), fam="filter")
 R("parallel:empty:zero", lambda s, p: ParallelFilter()(S(s), zero=0), fam="filter")
 R("parallel:nested", lambda s, p: ParallelFilter(CascadeFilter(_FILT["fir1"](), _FILT["iir1"]()),
@@ -645,6 +671,44 @@ R("cascade:parallel-later", lambda s, p: CascadeFilter(_FILT["iir1"](), Parallel
 R("cascade:parallel-in-parallel-first", lambda s, p: CascadeFilter(ParallelFilter(ParallelFilter(_FILT["fir1"](), _FILT["gain"]()),
                                                                                   _FILT["tv-num"]()), _FILT["delay"]())(s),
   fam="filter")
+# filter banks are lists: built by list operators, from one list / tuple / generator argument, with entries given
+# as coefficient lists, or changed in place after construction - the call shares ONE read of the input among the
+# branches the bank has when it is called
+_F = lambda n: _FILT[n]()
+
+
+def _changed(bank, how):
+  how(bank)
+  return bank
+
+
+_BANKS = OrderedDict([
+  ("bank+bank", lambda C: C(_F("fir1")) + C(_F("iir1"), _F("delay"))),
+  ("bank+list", lambda C: C(_F("fir1"), _F("gain")) + [_F("iir1")]),
+  ("bank*2", lambda C: C(_F("fir1"), _F("iir1")) * 2),
+  ("3*bank", lambda C: 3 * C(_F("iir1"))),
+  ("append", lambda C: _changed(C(_F("fir1")), lambda b: b.append(_F("iir1")))),
+  ("append-twice", lambda C: _changed(C(_F("fir1"), _F("delay")), lambda b: (b.append(_F("iir1")), b.append(_F("gain"))))),
+  ("extend", lambda C: _changed(C(_F("iir2")), lambda b: b.extend([_F("fir1"), _F("tv-num")]))),
+  ("insert", lambda C: _changed(C(_F("iir1"), _F("fir1")), lambda b: b.insert(0, _F("delay")))),
+  ("iadd", lambda C: _changed(C(_F("iir1")), lambda b: b.__iadd__([_F("fir1"), _F("gain")]))),
+  ("imul", lambda C: _changed(C(_F("iir1"), _F("fir1")), lambda b: b.__imul__(2))),
+  ("pop", lambda C: _changed(C(_F("iir1"), _F("fir1"), _F("delay")), lambda b: b.pop())),
+  ("del", lambda C: _changed(C(_F("iir1"), _F("fir1"), _F("delay")), lambda b: b.__delitem__(0))),
+  ("setitem", lambda C: _changed(C(_F("iir1"), _F("fir1")), lambda b: b.__setitem__(1, _F("tv-den")))),
+  ("slice-assign", lambda C: _changed(C(_F("iir1")), lambda b: b.__setitem__(slice(None), [_F("fir1"), _F("gain"), _F("iir2")]))),
+  ("empty-then-filled", lambda C: _changed(C(), lambda b: b.extend([_F("fir1"), _F("iir1")]))),
+  ("emptied", lambda C: _changed(C(_F("iir1"), _F("fir1")), lambda b: b.__delitem__(slice(None)))),
+  ("list-arg", lambda C: C([_F("fir1"), _F("iir1"), _F("delay")])),
+  ("tuple-arg", lambda C: C((_F("fir1"), _F("iir1")))),
+  ("gen-arg", lambda C: C(_F(n) for n in ("fir1", "iir1", "gain"))),
+  ("coefficient-list-entry", lambda C: C(_F("iir1"), [1, .5])),
+  ("same-object-twice", lambda C: (lambda f: C(f, f))(_F("iir1"))),
+  ("nested-changed", lambda C: _changed(C(_F("fir1")), lambda b: b.append(_changed(ParallelFilter(_F("iir1")), lambda c: c.append(_F("delay")))))),
+])
+R("bank:parallel", lambda s, p: _BANKS[p["b"]](ParallelFilter)(s), fam="filter-bank", dom={"b": list(_BANKS)})
+R("bank:cascade", lambda s, p: _BANKS[p["b"]](CascadeFilter)(s), fam="filter-bank", dom={"b": list(_BANKS)})
+R("bank:parallel:Stream-in", lambda s, p: _BANKS[p["b"]](ParallelFilter)(S(s), zero=0), fam="filter-bank", dom={"b": list(_BANKS)})
 _LPHP = ["pole", "z", "pole_exp", "z_exp"]
 R("lowpass", lambda s, p: al.lowpass[p["st"]](p["c"])(s), fam="filter-design", dom={"st": _LPHP, "c": [.5, 1.2]})
 R("highpass", lambda s, p: al.highpass[p["st"]](p["c"])(s), fam="filter-design", dom={"st": _LPHP, "c": [.5, 1.2]})
@@ -656,7 +720,7 @@ R("resonator:tv-freq", lambda s, p: al.resonator[p["st"]](Stream(.5, .7), .1)(s)
 R("resonator:tv-bw", lambda s, p: al.resonator[p["st"]](.5, Stream(.1, .2))(s), fam="filter-design", dom={"st": _RES})
 R("resonator:tv-both", lambda s, p: al.resonator[p["st"]](Stream(.5, .7), Stream(.1, .2))(s), fam="filter-design",
   dom={"st": _RES})
-R("comb", lambda s, p: al.comb[p["st"]](p["d"], .5)(s), fam="filter-design", dom={"st": ["fb", "ff"], "d": [1, 3]})
+R("comb", lambda s, p: al.comb[p["st"]](p["d"], .5)(s), fam="filter-design", dom={"st": ["fb", "ff"], "d": [1, 3, 25]})
 R("comb.tau", lambda s, p: al.comb.tau(p["d"], 20.)(s), fam="filter-design", dom={"d": [1, 4]})
 R("comb:tv", lambda s, p: al.comb[p["st"]](2, Stream(.5, .25))(s), fam="filter-design", dom={"st": ["fb", "ff"]})
 R("gammatone", lambda s, p: al.gammatone[p["st"]](.5, .1)(s), fam="filter-design", dom={"st": ["sampled", "slaney", "klapuri"]})
@@ -690,14 +754,59 @@ R("param:resample:old", lambda s, p: al.resample(itertools.count(), old=S(s), ne
 R("param:resample:new", lambda s, p: al.resample(itertools.count(), old=1, new=S(s), order=1),
   need=lambda k, p, f: k - 1, fam="param-stream", src="mod5")
 
+# the counting source is a coefficient stream of a filter that is then combined with numbers / FIR / IIR / other
+# time-varying filters through the ZFilter operators (either side), negated, raised to a power, linearized or put in
+# a cascade / parallel bank before it is called: the resulting stage still takes ONE value of the coefficient stream
+# per output, however many terms of the resulting equation the coefficient ends up in
+_ALG_BASE = OrderedDict([
+  ("num", lambda a: 1 + a * z ** -1),
+  ("den", lambda a: 1 / (1 - a * z ** -1)),
+  ("b0", lambda a: a + z ** -1),
+  ("a0", lambda a: 1 / (a - .5 * z ** -1)),
+  ("gain", lambda a: a * (1 + z ** -1)),
+  ("num-over-lti", lambda a: (1 + a * z ** -1) / (1 - .5 * z ** -1)),
+  ("lti-over-den", lambda a: (1 + .5 * z ** -1) / (1 - a * z ** -2)),
+  # ONE coefficient stream in numerator and denominator, shared as documented (thub with the number of uses / copy)
+  ("hub:num+den", lambda a: (lambda h: (1 + h * z ** -1) / (1 - h * z ** -1))(thub(a, 2))),
+  ("hub:a0+a1", lambda a: (lambda h: 1 / (h - h * z ** -1))(thub(a, 2))),
+  ("copy:num+den", lambda a: (1 + a.copy() * z ** -1) / (1 - a * z ** -1)),
+])
+_AFIR = lambda: 1 + .5 * z ** -2
+_AIIR = lambda: 1 / (1 - .25 * z ** -1)
+_ATV = lambda: (1 + Stream(1, 2) * z ** -1) / (1 - Stream(.5, .25) * z ** -1)
+_ALG_OP = OrderedDict([
+  ("f+1", lambda f: f + 1), ("1+f", lambda f: 1 + f), ("f-2", lambda f: f - 2), ("2-f", lambda f: 2 - f),
+  ("f*3", lambda f: f * 3), ("3*f", lambda f: 3 * f), ("f/2", lambda f: f / 2), ("2/f", lambda f: 2 / f),
+  ("f+delay", lambda f: f + z ** -1), ("delay+f", lambda f: z ** -1 + f), ("f*delay", lambda f: f * z ** -1),
+  ("f-half-delay2", lambda f: f - .5 * z ** -2),
+  ("f+fir", lambda f: f + _AFIR()), ("fir+f", lambda f: _AFIR() + f), ("f-fir", lambda f: f - _AFIR()),
+  ("fir-f", lambda f: _AFIR() - f), ("f*fir", lambda f: f * _AFIR()), ("fir*f", lambda f: _AFIR() * f),
+  ("f/fir", lambda f: f / _AFIR()), ("fir/f", lambda f: _AFIR() / f),
+  ("f+iir", lambda f: f + _AIIR()), ("iir+f", lambda f: _AIIR() + f), ("f-iir", lambda f: f - _AIIR()),
+  ("iir-f", lambda f: _AIIR() - f), ("f*iir", lambda f: f * _AIIR()), ("iir*f", lambda f: _AIIR() * f),
+  ("f/iir", lambda f: f / _AIIR()), ("iir/f", lambda f: _AIIR() / f),
+  ("f+tv", lambda f: f + _ATV()), ("tv-f", lambda f: _ATV() - f), ("f*tv", lambda f: f * _ATV()),
+  ("tv/f", lambda f: _ATV() / f),
+  ("-f", lambda f: -f), ("+f", lambda f: +f), ("f**1", lambda f: f ** 1), ("f**2", lambda f: f ** 2),
+  ("f**-1", lambda f: f ** -1), ("f**-2", lambda f: f ** -2),
+  ("(f+1)*2-delay", lambda f: (f + 1) * 2 - z ** -1), ("1/(f+fir)", lambda f: 1 / (f + _AFIR())),
+  ("linearize", lambda f: f.linearize()),
+  ("cascade(f,fir)", lambda f: CascadeFilter(f, _AFIR())), ("cascade(iir,f)", lambda f: CascadeFilter(_AIIR(), f)),
+  ("parallel(f,iir)", lambda f: ParallelFilter(f, _AIIR())), ("parallel(fir,f,1)", lambda f: ParallelFilter(_AFIR(), f, ZFilter(1))),
+])
+for _b in _ALG_BASE:
+  R("param:algebra:%s" % _b,
+    (lambda s, p, b=_ALG_BASE[_b]: _ALG_OP[p["op"]](b(S(s)))(_SIG())),
+    fam="param-algebra", src="unit", dom={"op": list(_ALG_OP)})
+
 # --- 6. sample-wise analysis tools ------------------------------------------
 R("maverage", lambda s, p: al.maverage[p["st"]](p["n"])(s), fam="analysis",
-  dom={"st": ["deque", "recursive", "fir", "feedback"], "n": [1, 2, 5]})
+  dom={"st": ["deque", "recursive", "fir", "feedback"], "n": [1, 2, 5, 40]})
 R("maverage:zero", lambda s, p: al.maverage[p["st"]](3)(S(s), zero=0), fam="analysis", dom={"st": ["deque", "recursive", "fir"]})
 R("envelope", lambda s, p: al.envelope[p["st"]](s), fam="analysis", dom={"st": ["rms", "abs", "squared"]})
 R("envelope:cutoff", lambda s, p: al.envelope[p["st"]](S(s), cutoff=.3), fam="analysis", dom={"st": ["rms", "abs", "squared"]})
 R("envelope:default", lambda s, p: al.envelope(s), fam="analysis")
-R("amdf", lambda s, p: al.amdf(p["lag"], p["n"])(s), fam="analysis", dom={"lag": [1, 2, 5], "n": [1, 3]})
+R("amdf", lambda s, p: al.amdf(p["lag"], p["n"])(s), fam="analysis", dom={"lag": [1, 2, 5, 20], "n": [1, 3, 18]})
 R("amdf:zero", lambda s, p: al.amdf(2, 3)(S(s), zero=0), fam="analysis")
 R("clip", lambda s, p: al.clip(s, p["lo"], p["hi"]), fam="analysis",
   dom={"lo": [None, -1., 2], "hi": [None, 3, 7.5]})
@@ -860,6 +969,40 @@ _POLY = OrderedDict([
 R("poly", lambda s, p: _POLY[p["q"]]()(S(s), horner=p["h"]), fam="poly",
   dom={"q": list(_POLY), "h": ["auto", True, False]}, chain_dom={"q": ["quad", "lin", "const"]})
 R("poly:laurent", lambda s, p: (PX ** -1 + 2 + PX)(S(s), horner=p["h"]), fam="poly", src="count1", dom={"h": ["auto", True, False]})
+# the counting source is a *coefficient* of a polynomial (or a Stream the polynomial is divided by) that is combined
+# with other polynomials / numbers and then evaluated at a number: a sample-wise stage, one coefficient value per output
+_PPOLY = OrderedDict([
+  ("a*x+1", lambda a: a * PX + 1),
+  ("x*a+1", lambda a: PX * a + 1),
+  ("Poly({0:1,2:a})", lambda a: Poly({0: 1, 2: a})),
+  ("Poly([1,a,2])", lambda a: Poly([1, a, 2])),
+  ("(a*x+1)+x**2", lambda a: (a * PX + 1) + PX ** 2),
+  ("x**2+(a*x+1)", lambda a: PX ** 2 + (a * PX + 1)),
+  ("(a*x+1)*(x+2)", lambda a: (a * PX + 1) * (PX + 2)),
+  ("(a*x+1)*3", lambda a: (a * PX + 1) * 3),
+  ("(a*x+1)**2", lambda a: (a * PX + 1) ** 2),
+  ("(a*x+1)**3", lambda a: (a * PX + 1) ** 3),
+  ("(a*x)**3", lambda a: (a * PX) ** 3),
+  ("-(a*x+1)", lambda a: -(a * PX + 1)),
+  ("(a*x+1)/2", lambda a: (a * PX + 1) / 2),
+  ("(a*x+1)/x", lambda a: (a * PX ** 2 + PX) / PX),
+  ("(a*x+1)-3*x", lambda a: (a * PX + 1) - 3 * PX),
+  ("3-(a*x+1)", lambda a: 3 - (a * PX + 1)),
+  ("(a*x**2+1).diff()", lambda a: (a * PX ** 2 + 1).diff()),
+  ("(a*x+1).integrate()", lambda a: (a * PX + 1).integrate()),
+  ("(a*x+1).copy()", lambda a: (a * PX + 1).copy()),
+  ("(x**2+x+1)/a", lambda a: (PX ** 2 + PX + 1) / a),
+  ("(x**2+2)/a+x", lambda a: (PX ** 2 + 2) / a + PX),
+  ("((x+1)/a)**2", lambda a: ((PX + 1) / a) ** 2),
+  ("((3*x**2+x)/a).diff()", lambda a: ((3 * PX ** 2 + PX) / a).diff()),
+  ("(x**3+x+2)/a*(x+1)", lambda a: (PX ** 3 + PX + 2) / a * (PX + 1)),
+  ("(x**-1+x)/a", lambda a: (PX ** -1 + PX) / a),
+])
+R("param:poly", lambda s, p: _PPOLY[p["q"]](S(s))(p["v"], horner=p["h"]), fam="param-poly", src="unit", tout="x",
+  dom={"q": list(_PPOLY), "v": [2, -1.5], "h": ["auto", True, False]})
+R("param:poly:default-call", lambda s, p: _PPOLY[p["q"]](S(s))(3), fam="param-poly", src="unit", tout="x",
+  dom={"q": list(_PPOLY)})
+R("param:gain-div", lambda s, p: ((1 + z ** -1) / S(s))(_SIG()), fam="param-stream", src="unit")
 R("poly:thub-in", lambda s, p: (PX ** 2 + 1)(thub(s, 1)), fam="poly")
 
 
@@ -958,8 +1101,27 @@ def _need_chain(stages, k, f0):
   return n
 
 
+def _need_upto(stages, upto, d, f0, pre):
+  """Source reads once stage ``upto`` (the outermost one built so far) has delivered d outputs in all, where
+  pre[i] outputs of stage i had been taken by the caller before stage i+1 was stacked on it: stage i+1 then starts
+  at output pre[i] of stage i, so stage i delivers pre[i] + need(i+1) outputs in all."""
+  n = d
+  for pos in range(upto, -1, -1):
+    name, p = stages[pos]
+    n = 0 if n <= 0 else ROWS[name].need(n, p, f0 if pos == 0 else None)
+    if n < 0:
+      n = 0
+    if pos > 0:
+      n += pre[pos - 1]
+  return n
+
+
 def _describe(case):
-  return " | ".join("%s%s" % (n, p if p else "") for n, p in case["stages"])
+  pre = case.get("pre") or []
+  return " | ".join("%s%s%s" % (n, p if p else "",
+                                " [then %d outputs taken (%s)]" % (pre[i], case.get("prepull", "take"))
+                                if i < len(pre) and pre[i] else "")
+                    for i, (n, p) in enumerate(case["stages"]))
 
 
 def _pull_one(it, j, src, case):
@@ -1005,7 +1167,16 @@ def run_case(case):
       kk = mo
       probe_end = rows[0].end_reads is not None and pull == "next"
   exact = all(r.exact for r in rows)
-  needs = [_need_chain(stages, j, f0) for j in range(kk + 1)]
+  # outputs the caller takes from stage i before the next stage is stacked on the same object (a stage is built on
+  # an input in mid-life: "every source" includes a Stream that has already delivered part of its items)
+  pre = list(case.get("pre") or [])
+  if any((not isinstance(c, int)) or c < 0 for c in pre):
+    raise Reject("malformed pre")
+  pre = (pre + [0] * len(stages))[:len(stages) - 1]
+  prepull = case.get("prepull", "take")
+  if prepull not in ("take", "next", "for"):
+    raise Reject("unknown prepull")
+  needs = [_need_upto(stages, len(stages) - 1, j, f0, pre) for j in range(kk + 1)]
   total = needs[kk]
   if probe_end:
     total = max(total, rows[0].end_reads(stages[0][1], f0))
@@ -1038,14 +1209,62 @@ def run_case(case):
                          "" if feed == "iter" else ", %d reader(s) opened" % src.opened),
                       site=stages[0][0])
 
+  def consume(cur, pos, c):
+    """The caller takes c outputs from stage ``pos`` (the outermost one so far) before stacking the next one."""
+    if isinstance(cur, al.StreamTeeHub) or not (isinstance(cur, Stream) or iter(cur) is cur):
+      raise Reject("intermediate object is neither a plain Stream nor an iterator")
+    what = "taking %d outputs (%s) after stage %d, before stage %r was built" % (c, prepull, pos + 1, stages[pos + 1][0])
+
+    def chk(t):
+      if src.pulls != src.reads:
+        raise Violation("%s: %s touched the end of a source holding exactly the %d items needed"
+                        % (_describe(case), what, total), site=stages[0][0])
+      got, exp = src.reads, _need_upto(stages, pos, t, f0, pre)
+      if (got != exp) if exact else (got > exp):
+        raise Violation("%s: %s: %d source items read after %d of them, expected %s%d"
+                        % (_describe(case), what, got, t, "" if exact else "at most ", exp), site=stages[0][0])
+    try:
+      if prepull == "take" and isinstance(cur, Stream):
+        n = len(cur.take(c))
+        chk(c)
+      elif prepull == "for":
+        n = 0
+        for _ in cur:
+          n += 1
+          chk(n)
+          if n == c:
+            break
+      else:
+        itc = iter(cur)
+        n = 0
+        for _ in range(c):
+          try:
+            next(itc)
+          except StopIteration:
+            break
+          n += 1
+          chk(n)
+    except OverRead as e:
+      raise Violation("%s: %s pulled past the %d source items needed (%s)" % (_describe(case), what, total, e),
+                      site=stages[0][0])
+    if n != c:
+      raise Violation("%s: %s gave only %d" % (_describe(case), what, n), site=stages[0][0])
+
   # (1) construction reads nothing
+  same_object = False
   try:
     cur = src
-    for row, (name, p) in zip(rows, stages):
+    for pos, (row, (name, p)) in enumerate(zip(rows, stages)):
+      r0, p0 = src.reads, src.pulls
+      prev = cur
       cur = row.build(cur, p)
-      if src.reads or src.pulls:
+      if src.reads != r0 or src.pulls != p0:
         raise Violation("%s: building stage %r read %d item(s) from its source"
-                        % (_describe(case), name, src.pulls), site=name)
+                        % (_describe(case), name, src.pulls - p0), site=name)
+      if pos > 0 and pre[pos - 1] and cur is prev:
+        same_object = True
+      if pos < len(rows) - 1 and pre[pos]:
+        consume(cur, pos, pre[pos])
     out = cur
     it = iter(out)
   except OverRead as e:
@@ -1116,6 +1335,14 @@ def run_case(case):
     if src.opened > 1:
       labels.append("re-iterable: several readers opened")
   labels.extend("in-chain:" + r.fam for r in rows[1:])
+  if any(pre):
+    labels.append("resumed: outputs taken before the next stage was stacked")
+    labels.append("resumed: prepull " + prepull)
+    if same_object:
+      labels.append("resumed: in-place stage on the consumed Stream object")
+    for i, c in enumerate(pre):
+      if c and rows[i].fam == rows[i + 1].fam and stages[i][0].split(".")[0] == stages[i + 1][0].split(".")[0]:
+        labels.append("resumed: same method again")
   if any(r.tout == "b" for r in rows):
     labels.append("has block stage")
   if total > kk:
@@ -1220,6 +1447,100 @@ def run_chain(case):
   if len(case["stages"]) < 2:
     raise Reject("not a chain")
   return run_case(case)
+
+
+# --- resumed: a stage is stacked on a Stream that has already delivered outputs ------------------------------------
+# Stream methods that re-bind the object in place or wrap it (the caller keeps using ONE object: skip a gap, take
+# a record, skip the next gap, take ...), and the stages commonly stacked on a stream that is being read
+_METHODS = [n for n in ["skip", "skip.skip", "limit", "map", "map:abs", "append:after", "copy:copy", "copy:original",
+                        "copy:both", "tee-method", "getattr", "Stream(src)", "Stream(Stream(src))", "Stream.blocks",
+                        "thub.skip", "thub.limit", "thub.map", "thub.append", "it:islice:start", "it:islice:step",
+                        "it:dropwhile", "zero_pad", "it:pairwise", "it:batched", "blk:skip", "blk:map-tuple",
+                        "blk:map-sum", "op:add:sc", "op:neg", "filter", "it:tee:0", "blocks:Stream-in"]
+            if n in ROWS]
+
+
+@st.composite
+def _resumed(draw, tier):
+  n = draw(st.integers(2, 3 if tier == "quick" else 4))
+  t = "n"
+  stages = []
+  for pos in range(n):
+    key = (t, pos == 0, pos == n - 1)
+    meth = [m for m in _METHODS if m in _COMPAT[key]]
+    if meth and draw(st.integers(0, 2)) != 0:
+      name = draw(st.sampled_from(meth))
+    else:
+      fams = _COMPAT_FAM[key]
+      name = draw(st.sampled_from(fams[draw(st.sampled_from(list(fams)))]))
+    p = draw(ROWS[name].pstrategy(chain=True))
+    stages.append([name, p])
+    t = ROWS[name].tout
+  pre = [draw(st.sampled_from([0, 1, 1, 2, 3, 5])) for _ in range(n - 1)]
+  if not any(pre):
+    pre[draw(st.integers(0, n - 2))] = draw(st.integers(1, 4))
+  return stages, pre
+
+
+def strat_resumed(tier):
+  return st.builds(
+    lambda sp, k, src, mode, pull, prepull, feed: dict(stages=sp[0], pre=sp[1], k=k, src=src, mode=mode, pull=pull,
+                                                       prepull=prepull, feed=feed),
+    _resumed(tier), st.integers(1, 8 if tier == "quick" else 12), st.sampled_from(GENERIC),
+    st.sampled_from(["bounded", "finite"]), st.sampled_from(["next", "next", "take", "islice"]),
+    st.sampled_from(["take", "take", "next", "for"]), st.sampled_from(_FEEDW))
+
+
+def run_resumed(case):
+  if len(case["stages"]) < 2 or not any(case.get("pre") or []):
+    raise Reject("nothing taken between the stages")
+  return run_case(case)
+
+
+# every ordered pair (and a few triples) of the in-place / wrapping Stream methods with 1..3 outputs taken in between
+_RES_A = [("skip", {"n": 1}), ("skip", {"n": 3}), ("skip", {"n": 2.6}), ("skip.skip", {"n": 1}), ("limit", {"n": BIG}),
+          ("map", {}), ("append:after", {}), ("copy:original", {}), ("copy:copy", {}), ("thub.skip", {"n": 2}),
+          ("it:islice:start", {"a": 2}), ("filter", {"pred": "m3"}), ("zero_pad", {"left": 2, "right": 0}),
+          ("it:dropwhile", {"n": 4}), ("it:pairwise", {}), ("Stream(src)", {}), ("op:add:sc", {})]
+_RES_B = [("skip", {"n": 1}), ("skip", {"n": 3}), ("skip.skip", {"n": 1}), ("limit", {"n": BIG}), ("map", {}),
+          ("append:after", {}), ("copy:original", {}), ("copy:both", {}), ("it:islice:start", {"a": 2}),
+          ("it:islice:step", {"a": 1, "step": 2}), ("zero_pad", {"left": 2, "right": 0}), ("it:pairwise", {}),
+          ("Stream.blocks", {"size": 3, "hopd": -1}), ("Stream(Stream(src))", {}), ("op:neg", {}), ("getattr", {})]
+
+
+def _resumed_grid(tier):
+  ks = [1, 3] if tier == "quick" else [1, 2, 3, 8]
+  pres = [1, 2] if tier == "quick" else [1, 2, 3, 7]
+  i = 0
+  for a in _RES_A:
+    if a[0] not in ROWS:
+      continue
+    for b in _RES_B:
+      if b[0] not in ROWS or ROWS[b[0]].inner or ROWS[b[0]].tin != ROWS[a[0]].tout:
+        continue
+      for c in pres:
+        for k in ks:
+          for mode in ("bounded", "finite"):
+            i += 1
+            yield dict(stages=[list(a), list(b)], pre=[c], k=k, src=GENERIC[i % len(GENERIC)], mode=mode,
+                       pull=["next", "take", "islice"][i % 3], prepull=["take", "next", "for"][(i // 3) % 3],
+                       feed=(["iter"] + REITER)[(i // 2) % 4] if i % 2 else "iter")
+  # records separated by gaps, read from one Stream object: skip, take, skip, take, skip, take
+  for g1 in (1, 2, 4):
+    for g2 in (0, 1, 3):
+      for g3 in (1, 2):
+        for c1 in (1, 2):
+          for c2 in (0, 1, 3):
+            i += 1
+            yield dict(stages=[["skip", {"n": g1}], ["skip", {"n": g2}], ["skip", {"n": g3}]], pre=[c1, c2], k=2,
+                       src="count1", mode=("bounded", "finite")[i % 2], pull=["take", "next"][i % 2],
+                       prepull=["take", "next", "for"][i % 3])
+
+
+def resumed_grid(tier, shard, nshards):
+  for i, case in enumerate(_resumed_grid(tier)):
+    if i % nshards == shard:
+      yield case
 
 
 # --- fan-out: tee / thub / copy consumers read at different paces ------------
@@ -1367,6 +1688,11 @@ def _grid_floors():
   floors["re-iterable into fam:filter"] = .01
   # 38 % of the grid: a binary operator / envelope idiom whose other operand is finite; 9 %: k equal to its length
   floors["fam:op-finite"] = .1
+  # 22 % of the grid: filter algebra on a filter with a counted coefficient stream; 2 %: polynomials with a counted
+  # coefficient; 3 %: filter banks built by list operators / changed after construction
+  floors["fam:param-algebra"] = .05
+  floors["fam:param-poly"] = .005
+  floors["fam:filter-bank"] = .008
   floors["finite operand: all its outputs asked, end not asked for"] = .07
   floors["finite operand: k == its length"] = .03
   return floors, tot
@@ -1389,7 +1715,7 @@ CLAUSES = [
          floors={"mode:finite": .08, "mode:bounded": .15, "pull:take": .05, "pull:peek": .05, "look-ahead/offset": .05,
                  "fam:op": .02, "fam:op-finite": .05, "finite operand: all its outputs asked, end not asked for": .03,
                  "fam:filter": .01, "fam:blocks": .01, "fam:itertools": .01, "feed:re-iterable": .1,
-                 "feed:iter": .15},
+                 "feed:iter": .15, "fam:param-algebra": .008, "fam:param-poly": .005, "fam:filter-bank": .005},
          doc="random row, parameters, k, source kind/mode, pull mode (next / take / peek+take / islice) and feed "
              "(iterator / re-iterable object)"),
   Clause("chain", strat_chain, run_chain, quick=4000, thorough=80000,
@@ -1397,6 +1723,20 @@ CLAUSES = [
                  "feed:iter": .15},
          doc="chains of 2-3 (thorough 4) type-compatible stages; need() functions compose; the innermost stage is fed "
              "the iterator or a re-iterable object"),
+  Enumerated("resumed_pairs", resumed_grid, run_resumed, shards={"quick": 2, "thorough": 4},
+             floors={"resumed: in-place stage on the consumed Stream object": .15, "resumed: same method again": .02,
+                     "resumed: prepull take": .15, "resumed: prepull next": .15, "resumed: prepull for": .15,
+                     "feed:re-iterable": .1},
+             doc="every ordered pair of Stream methods / wrappers (and skip-take-skip-take-skip-take records) on ONE "
+                 "object with 1..3 outputs taken by the caller between building the two: the second stage starts where "
+                 "the caller stopped and reads need(k) more items, nothing at construction"),
+  Clause("resumed", strat_resumed, run_resumed, quick=1500, thorough=40000,
+         floors={"resumed: in-place stage on the consumed Stream object": .08, "resumed: same method again": .01,
+                 "resumed: prepull take": .15, "resumed: prepull next": .08, "resumed: prepull for": .08,
+                 "len:3": .1, "mode:finite": .15, "feed:re-iterable": .1},
+         doc="chains of 2-3 (thorough 4) stages, biased towards the in-place Stream methods, where the caller takes "
+             "0..5 outputs (take / next / a for loop that breaks) from the object after each stage and before the next "
+             "one is stacked on it"),
   Clause("fanout", strat_fan, run_fan, quick=1200, thorough=20000,
          floors={"consumers:2": .05, "consumers:4": .05, "feed:re-iterable": .1},
          doc="tee / thub / copy consumers advanced by a generated schedule: source reads == furthest consumer"),
